@@ -371,6 +371,8 @@ def run_property(prop_id, tier, seed, only=None, jobs=None):
     if extra:
         ev["coverage"].update(extra(per_facet))
     evdir = os.environ.get("VERIF_EVIDENCE_DIR") or os.path.join(VERIF_DIR, "evidence")
+    if only:            # partial (single-facet) runs never overwrite the registered evidence file
+        evdir = os.path.join(VERIF_DIR, ".scratch", "partial-evidence")
     os.makedirs(evdir, exist_ok=True)
     tmp = os.path.join(evdir, ".%s.json.tmp" % prop_id)
     with open(tmp, "w") as f:
